@@ -12,6 +12,8 @@ pub fn sqr<const B: Word>(&self, f: &Repr<B>) -> Rounded<FBig<R, B>>
         isize::MIN <= 2 * f.exponent <= isize::MAX,
         2 * f.exponent + ndigits(B as int, f.significand.v() * f.significand.v()) <= isize::MAX,
         ndigits(B as int, f.significand.v() * f.significand.v()) <= isize::MAX,
+        // resource limit: exponent overflow is a documented panic (C16), not modelled (digit position of the split in repr_round)
+        pos_room(ndigits(B as int, f.significand.v() * f.significand.v()) as int),
     ensures
         // C03: ONE correct rounding of the exact square f.sig^2 * B^(2 f.exp)
         round_val(R::md(), B as int, self.precision, f.significand.v() * f.significand.v(), 2 * f.exponent, map_repr(ret)),
